@@ -207,6 +207,25 @@ class ShapeAnalysis:
         if isinstance(e, ast.IfExp):
             a, b = self._eval(e.body, env), self._eval(e.orelse, env)
             return a if a == b else UNKNOWN
+        if isinstance(e, ast.Compare) and len(e.ops) == 1 and not isinstance(e.ops[0], (ast.Is, ast.IsNot, ast.In, ast.NotIn)):
+            # element-wise comparison: same broadcasting as arithmetic
+            return self._binop(e, self._eval(e.left, env), self._eval(e.comparators[0], env), ast.Add())
+        if isinstance(e, (ast.ListComp, ast.GeneratorExp, ast.SetComp)):
+            env2 = dict(env)
+            for g in e.generators:
+                elem = self._loop_elem(g.iter, env2)
+                if isinstance(g.target, ast.Name):
+                    env2[g.target.id] = elem
+                elif isinstance(g.target, (ast.Tuple, ast.List)):
+                    for i, el in enumerate(g.target.elts):
+                        if isinstance(el, ast.Name):
+                            env2[el.id] = self._unpack(g.iter, env2, i, -len(g.target.elts))
+            self._eval(e.elt, env2)
+            return UNKNOWN
+        if isinstance(e, (ast.List, ast.Set)):
+            for x in e.elts:
+                self._eval(x.value if isinstance(x, ast.Starred) else x, env)
+            return UNKNOWN
         return UNKNOWN
 
     def _binop(self, node, a: frozenset, b: frozenset, op) -> frozenset:
@@ -320,6 +339,39 @@ class ShapeAnalysis:
             n_explicit = len([x for x in items if not (isinstance(x, ast.Constant) and (x.value is Ellipsis or x.value is None))])
             fill = max(0, len(kinds) - n_explicit)
             items = items[:pos_e] + [ast.Slice(None, None, None)] * fill + after
+        # several index arrays / ranges are broadcast together into ONE axis (paired fancy indexing)
+        def _as_index_array(ix):
+            if isinstance(ix, ast.Call) and dotted(ix.func) in ("range", "arange") and len(ix.args) in (1, 2):
+                v = single(self._eval(ix.args[-1], env))
+                if v and v[0] == "dim":
+                    return ("idxarr", (v[1],), v[1])
+                return ("idxarr", ("?",), "?")
+            v = single(self._eval(ix, env))
+            return v if v and v[0] == "idxarr" else None
+
+        arrays = [(i, _as_index_array(ix)) for i, ix in enumerate(items)]
+        arrays = [(i, a) for i, a in arrays if a is not None]
+        if len(arrays) >= 2 and base[0] == "arr":
+            out = []
+            placed = False
+            for pos, ix in enumerate(items):
+                if pos >= len(kinds):
+                    return UNKNOWN
+                a = dict(arrays).get(pos)
+                if a is not None:
+                    self.site(e, "index-array")
+                    if a[2] != kinds[pos] and "?" not in (a[2], kinds[pos]):
+                        self.problem(e, f"index array whose elements are of kind {a[2]} applied to an axis of kind {kinds[pos]} in `{norm_stmt(e, 70)}`")
+                    if not placed:
+                        out.extend(arrays[0][1][1])
+                        placed = True
+                else:
+                    r = self._index_axis(e, kinds, pos, ix, env)
+                    if r is None:
+                        return UNKNOWN
+                    out.extend(r)
+            out.extend(kinds[len(items) :])
+            return one(("arr", tuple(out))) if out else one(("scalar",))
         out = []
         pos = 0
         for ix in items:
@@ -399,6 +451,14 @@ class ShapeAnalysis:
         if name == "transpose" and isinstance(f, ast.Attribute) and not e.args:
             v = single(self._eval(f.value, env))
             return one(("arr", tuple(reversed(v[1])))) if v and v[0] == "arr" else UNKNOWN
+        if name == "reshape" and isinstance(f, ast.Attribute) and e.args:
+            shp = e.args[0] if len(e.args) == 1 else ast.Tuple(elts=list(e.args), ctx=ast.Load())
+            if isinstance(shp, (ast.Tuple, ast.List)):
+                dims = [single(self._eval(x, env)) for x in shp.elts]
+                return one(("arr", tuple(d[1] if d and d[0] == "dim" else "?" for d in dims)))
+            return UNKNOWN
+        if name == "tile" and len(e.args) == 2 and not isinstance(e.args[1], (ast.Tuple, ast.List)):
+            return one(("arr", ("?",)))
         if name == "tile" and len(e.args) == 2:
             v = single(self._eval(e.args[0], env))
             reps = e.args[1]
@@ -407,6 +467,13 @@ class ShapeAnalysis:
                 if isinstance(reps.elts[1], ast.Constant) and reps.elts[1].value == 1 and len(v[1]) == 1:
                     return one(("arr", (r0[1] if r0 and r0[0] == "dim" else "?", v[1][0])))
             return UNKNOWN
+        # not modelled: still look inside the arguments (indexing / products there are checked)
+        for a in e.args:
+            self._eval(a.value if isinstance(a, ast.Starred) else a, env)
+        for k in e.keywords:
+            self._eval(k.value, env)
+        if isinstance(f, ast.Attribute):
+            self._eval(f.value, env)
         return UNKNOWN
 
     # -------------------------------------------------------------- sinks
@@ -445,3 +512,25 @@ class ShapeAnalysis:
                 self.site(stmt, "rhs")
                 if v[1][0] != rows and "?" not in (v[1][0], rows):
                     self.problem(stmt, f"right-hand side of kind {v[1][0]} given to a linear system whose rows are of kind {rows} in `{norm_stmt(stmt, 70)}`")
+
+
+def specialise(func: ast.AST, facts: dict[str, bool]) -> ast.AST:
+    """Deep copy of ``func`` in which the expressions whose text is a key of ``facts`` are replaced by the constant."""
+    import copy as _copy
+
+    new = _copy.deepcopy(func)
+
+    class T(ast.NodeTransformer):
+        def generic_visit(self, node):
+            node = super().generic_visit(node)
+            if isinstance(node, ast.expr):
+                txt = norm_stmt(node)
+                if txt in facts:
+                    return ast.copy_location(ast.Constant(value=facts[txt]), node)
+                if isinstance(node, ast.UnaryOp) and isinstance(node.op, ast.Not) and isinstance(node.operand, ast.Constant) and isinstance(node.operand.value, bool):
+                    return ast.copy_location(ast.Constant(value=not node.operand.value), node)
+            return node
+
+    new = T().visit(new)
+    ast.fix_missing_locations(new)
+    return new
